@@ -197,6 +197,7 @@ type c18Point struct {
 
 type c18Obs struct {
 	lines  []string // canonical serialisation, compared across orders
+	mixed  []bool   // lines[i] is the hash pair of a series some of whose trials lack a baseline
 	series []*benchseries.ComparisonSeries
 	points []c18Point
 }
@@ -221,7 +222,7 @@ func c18Sorted(c *benchseries.Cell) []float64 {
 	return s
 }
 
-func c18Observe(c c18Case, rs []c18Res) (*c18Obs, *kit.Fail) {
+func c18Observe(c c18Case, rs []c18Res, mixed map[string]bool) (*c18Obs, *kit.Fail) {
 	b, err := benchseries.NewBuilder(c18Options(c.TableKeys))
 	if err != nil {
 		return nil, kit.Failf("monitor-builder", "NewBuilder: %v", err)
@@ -238,7 +239,10 @@ func c18Observe(c c18Case, rs []c18Res) (*c18Obs, *kit.Fail) {
 		return nil, kit.Failf("series-error", "AllComparisonSeries: %v", err)
 	}
 	o := &c18Obs{series: css}
-	add := func(format string, args ...any) { o.lines = append(o.lines, fmt.Sprintf(format, args...)) }
+	add := func(format string, args ...any) {
+		o.lines = append(o.lines, fmt.Sprintf(format, args...))
+		o.mixed = append(o.mixed, false)
+	}
 	for ti, cs := range css {
 		if cs == nil {
 			return nil, kit.Failf("series-nil", "nil comparison series")
@@ -254,6 +258,7 @@ func c18Observe(c c18Case, rs []c18Res) (*c18Obs, *kit.Fail) {
 		sort.Strings(hk)
 		for _, k := range hk {
 			add(" hashpair %q = %q/%q", k, cs.HashPairs[k].NumHash, cs.HashPairs[k].DenHash)
+			o.mixed[len(o.mixed)-1] = mixed[c18UnitID(cs.Unit)+"\x00"+k]
 		}
 		for _, r := range cs.Residues {
 			add(" residue %q = %q", r.S, r.Slice)
@@ -304,6 +309,18 @@ func c18Diff(a, b []string) string {
 		return fmt.Sprintf("%d lines vs %d lines", len(a), len(b))
 	}
 	return ""
+}
+
+// c18Unmasked returns the serialisation without the hash-pair lines of series
+// with mixed baseline presence.
+func c18Unmasked(o *c18Obs) []string {
+	var out []string
+	for i, l := range o.lines {
+		if !o.mixed[i] {
+			out = append(out, l)
+		}
+	}
+	return out
 }
 
 // c18DiffKind names the first differing component (for the signature).
@@ -479,7 +496,7 @@ type c18RefPoint struct {
 	num, den []float64
 	date     string
 	nhash    string
-	dhash    string
+	dhashes  map[string]bool // baseline hash of each trial holding numerators of this point ("" = no baseline)
 	stamp    string
 	nexp     int
 }
@@ -538,7 +555,10 @@ func c18Reference(c c18Case) (map[string]map[string]map[string]*c18RefPoint, *ki
 		if err != nil {
 			return nil, kit.Failf("date-rejected", "NormalizeDateString(%q): %v", latest, err)
 		}
-		p.dhash = denHash[c18RefTrial{k.table, k.bench, latest}]
+		p.dhashes = map[string]bool{}
+		for _, e := range exps {
+			p.dhashes[denHash[c18RefTrial{k.table, k.bench, e}]] = true
+		}
 		if c.Policy == 0 {
 			p.num = append(p.num, byExp[latest]...)
 			p.den = append(p.den, dens[c18RefTrial{k.table, k.bench, latest}]...)
@@ -577,12 +597,35 @@ func c18SameFloats(a, b []float64) bool {
 }
 
 func c18CheckBuilder(c c18Case) *kit.Fail {
-	first, f := c18Observe(c, c.order(0))
+	// --- set-level reference ------------------------------------------------
+	ref, f := c18Reference(c)
 	if f != nil {
 		return f
 	}
-	// --- set-level reference ------------------------------------------------
-	ref, f := c18Reference(c)
+	// Acceptable denominator hashes per (table, series label): the baseline
+	// hashes of the trials that hold numerator measurements of that series.
+	// "mixed" = some of those trials have a baseline and some have none.
+	dhashes := map[string]map[string]bool{}
+	for tid, byB := range ref {
+		for _, byS := range byB {
+			for label, p := range byS {
+				k := tid + "\x00" + label
+				if dhashes[k] == nil {
+					dhashes[k] = map[string]bool{}
+				}
+				for h := range p.dhashes {
+					dhashes[k][h] = true
+				}
+			}
+		}
+	}
+	mixed := map[string]bool{}
+	for k, set := range dhashes {
+		if set[""] && len(set) > 1 {
+			mixed[k] = true
+		}
+	}
+	first, f := c18Observe(c, c.order(0), mixed)
 	if f != nil {
 		return f
 	}
@@ -627,8 +670,8 @@ func c18CheckBuilder(c c18Case) *kit.Fail {
 				return kit.Failf("series-extra", "unit %q: series point %q matches no numerator measurement", cs.Unit, s)
 			}
 			hp, ok := cs.HashPairs[s]
-			if !ok || hp.NumHash != p.nhash || hp.DenHash != p.dhash {
-				return kit.Failf("hashpair-wrong", "unit %q series %q: hash pair %+v (present %v), want %s/%s", cs.Unit, s, hp, ok, p.nhash, p.dhash)
+			if !ok || hp.NumHash != p.nhash || !dhashes[id+"\x00"+s][hp.DenHash] {
+				return kit.Failf("hashpair-wrong", "unit %q series %q: hash pair %+v (present %v), want numerator %s and a denominator hash of %v", cs.Unit, s, hp, ok, p.nhash, dhashes[id+"\x00"+s])
 			}
 		}
 		if len(cs.HashPairs) != len(wantSeries) {
@@ -695,17 +738,21 @@ func c18CheckBuilder(c c18Case) *kit.Fail {
 	}
 
 	// --- relational: other insertion orders, and the same order again --------
+	knownHashpair := ""
 	for k := 1; k <= c.Orders; k++ {
 		ord := k
 		if k == c.Orders {
 			ord = 0 // same order once more: reproducibility
 		}
-		o, f := c18Observe(c, c.order(ord))
+		o, f := c18Observe(c, c.order(ord), mixed)
 		if f != nil {
 			return f
 		}
-		if d := c18Diff(first.lines, o.lines); d != "" {
-			kind := c18DiffKind(first.lines, o.lines)
+		// Hash-pair lines of series with mixed baseline presence are compared
+		// separately (own root cause, own signature); everything else first.
+		a, b := c18Unmasked(first), c18Unmasked(o)
+		if d := c18Diff(a, b); d != "" {
+			kind := c18DiffKind(a, b)
 			if ord == 0 {
 				return kit.Failf("rebuild-differs-"+kind, "building twice from the same insertion order differs at %s", d)
 			}
@@ -714,6 +761,12 @@ func c18CheckBuilder(c c18Case) *kit.Fail {
 			}
 			return kit.Failf("order-dependence-"+kind, "insertion order %d differs from order 0 at %s", ord, d)
 		}
+		if d := c18Diff(first.lines, o.lines); d != "" && knownHashpair == "" {
+			knownHashpair = fmt.Sprintf("insertion order %d (0 = the same order again) differs from the first build only in the denominator hash of a series some of whose trials have no baseline: %s", ord, d)
+		}
+	}
+	if knownHashpair != "" {
+		return kit.Failf("hashpair-missing-baseline", "%s", knownHashpair)
 	}
 	kit.Count("C18 insertion orders compared", int64(c.Orders))
 	return nil
@@ -988,7 +1041,7 @@ func c18CheckBoot(c c18BootCase) *kit.Fail {
 		if k == 1 {
 			kit.Shuffle(kit.NewRand(c.Seed, "c18-boot", 1), ord)
 		}
-		o, f := c18Observe(bc, ord)
+		o, f := c18Observe(bc, ord, nil)
 		if f != nil {
 			return f
 		}
